@@ -479,8 +479,10 @@ func (c *concRun) cSharedSession(ci int, repo string, op Op) {
 		}
 	case "wait":
 		// until the session has seen op.A successful chunks (bounded: the other client may have failed)
-		for i := 0; i < 200 && (ss == nil || ss.chunks < op.A); i++ {
-			simrt.Sleep(50 * time.Microsecond)
+		// (polled at the pace of the request latency: the next request of this client then arrives at the same simulated
+		// instant as the next request of the client that made the progress, and the scheduler decides who goes first)
+		for i := 0; i < 1000 && (ss == nil || ss.chunks < op.A); i++ {
+			simrt.Sleep(10 * time.Microsecond)
 			ss = c.shared[op.Sess]
 		}
 	case "patch", "put":
